@@ -110,23 +110,15 @@ def decDoc (j : Json) : Dec (Doc DText) := do
            elems := ← asList (asOpt asNat) (← field j "elems"),
            lines := ← asList decDocLine (← field j "lines") }
 
-def elemNames : List String := ["lines", "words", "text_regions", "columns", "extra", "pages"]
+-- column names: `colName` / `rangeStr` of the model (the fixed ones are tied to `fields` of _init_doc_stats and
+-- DEFAULT_ELEMENTS by `consts_init_fields`)
 
-def rangeStr (r : WidthRange) : String :=
-  match r.2 with
-  | some b => s!"{r.1}-{b}"
-  | none => s!"{r.1}-"
-
-def colName : Col → String
-  | .docId => "doc_id" | .docNum => "doc_num" | .docWidth => "doc_width" | .docHeight => "doc_height"
-  | .elem i => elemNames.getD i s!"elem_{i}"
-  | .numWords => "num_words" | .numAlpha => "num_alpha_words" | .numNumber => "num_number_words"
-  | .numTitle => "num_title_words" | .numNonTitle => "num_non_title_words" | .numStop => "num_stop_words"
-  | .numPunct => "num_punctuation_words" | .numOversized => "num_oversized_words"
-  | .wpl s => s!"words_per_line_{s}"
-  | .awpl s => s!"alpha_words_per_line_{s}"
-  | .wordLen b => s!"num_words_length_{b}"
-  | .lineWidth r => s!"line_width_range_{rangeStr r}"
+/-- an optional argument: `null` / absent = not passed to the real function, the regenerated default applies -/
+def optArg {α} (f : Json → Dec α) (args : Json) (k : String) : Dec (Option α) :=
+  match fieldOpt args k with
+  | none => pure none
+  | some .null => pure none
+  | some j => some <$> f j
 
 def jVal : Val → Json
   | .none => Json.null
@@ -136,12 +128,12 @@ def jVal : Val → Json
 def jDocTable (t : DocTable) : Json :=
   jList (fun (p : Col × List Val) => Json.arr #[jStr (colName p.1), jList jVal p.2]) t
 
+/-- keys: the model's names of the word-category columns (tied to the source by `consts_word_cat_keys`) -/
 def jWordCat (s : WordCatStats) : Json :=
-  jObj ([("num_words", jNat s.numWords), ("num_alpha_words", jNat s.numAlpha), ("num_number_words", jNat s.numNumber),
-         ("num_title_words", jNat s.numTitle), ("num_non_title_words", jNat s.numNonTitle),
-         ("num_stop_words", jOpt jNat s.numStop), ("num_punctuation_words", jNat s.numPunct),
-         ("num_oversized_words", jNat s.numOversized)] ++
-        s.bins.map (fun b => (s!"num_words_length_{b.1}", jNat b.2)))
+  jObj ((wordCatCols.map colName).zip
+          [jNat s.numWords, jNat s.numAlpha, jNat s.numNumber, jNat s.numTitle, jNat s.numNonTitle,
+           jOpt jNat s.numStop, jNat s.numPunct, jNat s.numOversized] ++
+        s.bins.map (fun b => (colName (Col.wordLen b.1), jNat b.2)))
 
 def handle (op : String) (args : Json) : Dec Json := do
   match op with
@@ -195,9 +187,9 @@ def handle (op : String) (args : Json) : Dec Json := do
   | "word_cat_stats" =>
     let ws ← asList decWord (← field args "words")
     let useStop ← boolF args "use_stop"
-    let maxLen ← natF args "max_len"
-    let size ← natF args "size"
-    return jObj [("ok", jWordCat (wordCatStats dCls useStop maxLen size ws))]
+    let maxLen ← optArg asNat args "max_len"
+    let size ← optArg asNat args "size"
+    return jObj [("ok", jWordCat (wordCatStatsPy dCls useStop maxLen size ws))]
   | "line_width" =>
     let ws ← asList asInt (← field args "widths")
     let bps ← asList asInt (← field args "bps")
@@ -207,10 +199,12 @@ def handle (op : String) (args : Json) : Dec Json := do
       ("cats", jList (fun w => jStr (rangeStr (categoriseLineWidth w bps))) ws)])]
   | "doc_stats" =>
     let docs ← asList decDoc (← field args "docs")
-    let bps ← asList asInt (← field args "bps")
+    let bps ← optArg (asList asInt) args "bps"
     let useStop ← boolF args "use_stop"
-    let maxLen ← natF args "max_len"
-    return answer jDocTable (getDocStats dTextOps dCls { bps := bps, useStop := useStop, maxLen := maxLen } docs)
+    let maxLen ← optArg asNat args "max_len"
+    let lbw ← optArg asInt args "line_bin_width"
+    let mb ← optArg asInt args "max_bin"
+    return answer jDocTable (getDocStatsPy dTextOps dCls bps useStop maxLen lbw mb docs)
   | _ => .error s!"unknown op {op}"
 
 end Pagexml.Drv.C20
